@@ -41,8 +41,16 @@ func TestGovcBounded(t *testing.T) {
 	check := func(doc []byte) {
 		n++
 		want := stdjson.Valid(doc)
+		// decoding into interface{} can also fail for a valid text (a number beyond float64): the oracle for
+		// the decoding entry points is encoding/json's verdict on the same decode
+		var ov interface{}
+		wantDec := stdjson.Unmarshal(doc, &ov) == nil
 		dir := func(got bool) string {
 			if got {
+				// root-cause discriminator: the stream decoder uses NUL as the end-of-window sentinel
+				if bytes.IndexByte(doc, 0) >= 0 {
+					return "accepts-invalid-nul-byte"
+				}
 				// root-cause discriminator: a Decoder skips one leading ',' or ':' by design (Token-driven use)
 				if t := bytes.TrimLeft(doc, " "); len(t) > 0 && (t[0] == ',' || t[0] == ':') {
 					return "accepts-invalid-leading-separator"
@@ -55,7 +63,7 @@ func TestGovcBounded(t *testing.T) {
 			record("Valid-"+dir(got), doc)
 		}
 		var v1 interface{}
-		if got := Unmarshal(doc, &v1) == nil; got != want {
+		if got := Unmarshal(doc, &v1) == nil; got != wantDec {
 			record("Unmarshal-interface-"+dir(got), doc)
 		}
 		// a destination that ignores every member: the verdict must still be the grammar's
@@ -92,7 +100,7 @@ func TestGovcBounded(t *testing.T) {
 				got = false
 			}
 		}
-		if got != want {
+		if got != wantDec {
 			record("Decoder-single-document-"+dir(got), doc)
 		}
 	}
@@ -115,6 +123,12 @@ func TestGovcBounded(t *testing.T) {
 		check([]byte(`{"unknown":` + inner + `}`))
 		check([]byte(`{"unknown":` + inner + `,"zq":1}`))
 		check([]byte(`{"zq":1,"unknown":` + inner + `}`))
+	}
+	// outside the alphabet: numbers beyond float64, NUL bytes, control characters in strings and escapes
+	bs := string(rune(92))
+	for _, d := range []string{"1e400", "[1E999]", "-1e-400", "[-1e400,1]", `{"a":1e999}`, "1\x00", "1\x00x", "[1]\x00", "\x00", "[\x001]", "\"\x1f\"", "\"\x00\"", "[\"a\x01\"]", "{\"k\x02\":1}", "{\"k\":{\"a\x03\":1}}",
+		"[\"" + bs + "u00\x1f1\"]", "\"" + bs + "u00zz\"", "\"" + bs + "uD800" + bs + "u00zz\"", "{\"" + bs + "u00g1\":1}", "\"\x7f\"", "\"\t\"", "[\"\n\"]"} {
+		check([]byte(d))
 	}
 	var ks []string
 	for k := range classes {
